@@ -10,6 +10,7 @@ CHECKS = {
  "C02": "Per-call frame and allowance VCs over the real MIR of all twelve cw20 execute variants (who may lose balance, exact moved amount, allowance lowered exactly, expiry respected, Send/SendFrom notification exact) plus a ghost-counter VC that turns the cumulative 'never more than granted' bound into a solver fact.",
  "C13": "Inductive VCs: supply rises only in a Mint by the stored minter and stays within the cap; the minter record changes only in UpdateMinter by the minter and keeps the cap; mint=None is absorbing under every execute variant and migrate; instantiate establishes the cap invariant.",
  "C19": "Inductive VC that the owner- and spender-indexed allowance maps mirror each other under every execute variant, that migrate from a pre-0.14 layout builds the mirror (semver comparison symbolic), and a relational VC that the three allowance queries agree on amount and expiry.",
+ "C04": "Solver VCs over the real MIR of the cw3 threshold kernel (votes_needed, is_passed, is_rejected, current_status) for every u64 tally and every valid threshold: exact round-up for <= 9 decimals, within one vote and never stricter for 18, never Passed without Yes weight, early decisions sound against every completion of the outstanding votes, never both passed and rejected; non-linear queries decided by z3 5.1.",
 }
 PENDING = {}
 ALL = [f"C{i:02d}" for i in range(1, 21)]
